@@ -428,6 +428,7 @@ __CPROVER_ensures((!TGM(0) && !TGM(1)) ==> (nitro_exc == 0 && !__CPROVER_return_
 __CPROVER_ensures(((TGM(0) || TGM(1)) && T_HAS_VALUE(IN)) ==> nitro_exc != 0)                                                 /*@ value_on_a_toggle_is_rejected */
 __CPROVER_ensures(((TGM(0) || TGM(1)) && T_SHORT(IN) && TG_LETTERS != T_NLETTERS(IN)) ==> nitro_exc != 0)                      /*@ bundle_with_a_letter_that_is_no_toggle_is_rejected */
 __CPROVER_ensures((TG_CONFLICT(0) || TG_CONFLICT(1)) ==> nitro_exc != 0)                                                      /*@ both_polarities_or_irreversible_no-_are_rejected */
+__CPROVER_ensures(((TGM(0) || TGM(1)) && !T_HAS_VALUE(IN) && !(T_SHORT(IN) && TG_LETTERS != T_NLETTERS(IN)) && !TG_CONFLICT(0) && !TG_CONFLICT(1)) ==> nitro_exc == 0)   /*@ and_under_no_other_condition */
 __CPROVER_ensures(nitro_exc == 0 ==> (__CPROVER_return_value == (TGM(0) || TGM(1))))
 __CPROVER_ensures((nitro_exc == 0 && TGM(0)) ==> TG_UPDATED(0))                                                              /*@ every_matching_toggle_is_counted */
 __CPROVER_ensures((nitro_exc == 0 && TGM(1)) ==> TG_UPDATED(1))
@@ -809,7 +810,7 @@ static inline void oorder_push_back(struct oorder *o, const struct obase *e) { i
 #define NAME_UNIQUE(P) (GRP_CNT(P, 0) + GRP_CNT(P, 1) <= 1)                  /* the long name denotes at most one option across all groups and kinds */
 #define GA_CONTRACT(kind, member) \
 void parser_get_all_##kind(struct omapk *tmp, const struct oparser2 *self) \
-__CPROVER_requires(nitro_exc == 0 && __CPROVER_rw_ok(tmp, sizeof(*tmp)) && O_OBJ_OR_ROK(parser_get_all_##kind, self) && self->n_groups <= NITRO_G) \
+__CPROVER_requires(nitro_exc == 0 && O_OBJ_OR_OK(parser_get_all_##kind, tmp) && O_OBJ_OR_ROK(parser_get_all_##kind, self) && self->n_groups <= NITRO_G) \
 __CPROVER_assigns(*tmp) \
 __CPROVER_ensures(nitro_exc == 0 && (tmp->has != 0) == ((self->n_groups > 0 && self->groups[0].member.has) || (self->n_groups > 1 && self->groups[1].member.has)))
 GA_CONTRACT(options, options_);
